@@ -175,17 +175,29 @@ harness!(name=c13_predict_p3_h3, prop=C13, mode=R, kind=normal, tier=thorough, u
 // @claim c13_dot_: the dot product used by predict_one equals its definition at lengths that reach the unrolled block (order-8 models) (R; same obligation as c04_red_8/9)
 harness!(name=c13_dot_8, prop=C13, mode=R, kind=normal, tier=quick, unwind=24, { crate::c04::red::<8>() });
 harness!(name=c13_dot_9, prop=C13, mode=R, kind=normal, tier=quick, unwind=24, { crate::c04::red::<9>() });
-// @claim c13_refit_: fitting the same AR object a second time gives the coefficients of a fresh fit (no state carried over) (R)
-harness!(name=c13_refit_1, prop=C13, mode=R, kind=normal, tier=thorough, unwind=16, {
-    let x = series::<3>(0);
-    let z = series::<3>(100);
-    vassume!(ref_acov(&x, 0) >= 1.0e-3 && ref_acov(&z, 0) >= 1.0e-3);
-    let mut ar = AR::new(1);
-    ar.fit(&z);
+// @bound c13_refit_: model order P and series length N per instance; series entries and the object's previous state (public fields coeffs, intercept) in ±1e3, series variance >= 1e-3; floating-point operations opaque (U): the obligation is that the second fit performs the same operations on the same data as a fresh one
+// @claim c13_refit_: fitting an AR object that already holds arbitrary coefficients and intercept gives bit-identical coefficients and intercept to fitting a fresh object on the same data (no state carried over; one inductive step over fit histories) (U)
+// @modes c13_refit_: U
+fn refit<const P: usize, const N: usize>() {
+    let x = series::<N>(0);
+    let old = series::<P>(100);
+    let i0 = inp::f64(120);
+    // a non-constant series (the autocorrelations divide by its variance); bounded previous state
+    vassume!(ref_acov(&x, 0) >= 1.0e-3 && i0 >= -1.0e3 && i0 <= 1.0e3);
+    let mut ar = AR::new(P);
+    ar.coeffs = old.to_vec();
+    ar.intercept = i0;
     ar.fit(&x);
-    let mut fresh = AR::new(1);
+    let mut fresh = AR::new(P);
     fresh.fit(&x);
-    vclose!(ar.coeffs[0], fresh.coeffs[0], 1e-9 * (1.0 + fabs(fresh.coeffs[0])), "coefficient after a second fit");
-    vclose!(ar.intercept, fresh.intercept, 1e-9 * (1.0 + fabs(fresh.intercept)), "intercept after a second fit");
-});
-// @cap c13_refit_: 150
+    vassert!(ar.coeffs.len() == P && fresh.coeffs.len() == P, "coefficient count after a second fit");
+    let mut i = 0;
+    while i < P {
+        crate::vbits!(ar.coeffs[i], fresh.coeffs[i], "coefficient {} after a second fit", i);
+        i += 1;
+    }
+    crate::vbits!(ar.intercept, fresh.intercept, "intercept after a second fit");
+}
+harness!(name=c13_refit_1, prop=C13, mode=U, kind=normal, tier=quick, unwind=16, { refit::<1, 3>() });
+harness!(name=c13_refit_2, prop=C13, mode=U, kind=normal, tier=thorough, unwind=16, { refit::<2, 4>() });
+// @cap c13_refit_: 100
